@@ -383,6 +383,10 @@ func repsOf(c envCase) int {
 			k = len(badPolicies)
 		case op.A == "pol" && (op.B == "oob" || op.B == "oobneg" || op.B == "u64"):
 			k = 8
+		case (op.A == "nbf" || op.A == "exp" || op.A == "iat") && op.B == "ok2":
+			k = 6
+		case op.A == "aud" && op.B == "ok2":
+			k = 2
 		}
 		if k > n {
 			n = k
@@ -431,6 +435,13 @@ func (ew *envWorld) classValue(e *envelopeParts, f, c string) (ipld.Node, bool, 
 		case "M":
 			return str(ew.M.id.String()), true, nil
 		case "ok2":
+			// another well-formed principal; for the audience also: the very DID that is the subject (legal on the wire, and
+			// signed as such)
+			if f == "aud" && ew.rot%2 == 1 {
+				if sn, ok := e.payload["sub"]; ok && sn != nil && sn.Kind() == datamodel.Kind_String {
+					return sn, true, nil
+				}
+			}
 			return str(ew.Q.id.String()), true, nil
 		case "bad":
 			return str(badDids[ew.rot%len(badDids)]), true, nil
@@ -526,7 +537,9 @@ func (ew *envWorld) classValue(e *envelopeParts, f, c string) (ipld.Node, bool, 
 	case "nbf", "exp", "iat":
 		switch c {
 		case "ok2":
-			return basicnode.NewInt(time.Now().Add(3 * time.Hour).Unix()), true, nil
+			// another legal instant: near, and at the far ends of what a safe integer of seconds can say (the "never" sentinel
+			// 9999-12-31, 2^40, 2^53-1, long before the epoch)
+			return basicnode.NewInt([]int64{time.Now().Add(3 * time.Hour).Unix(), 253402300799, 1 << 40, 1<<53 - 1, -(1<<53 - 1), 100_000_000_001}[ew.rot%6]), true, nil
 		case "wrongkind":
 			return str("soon"), true, nil
 		case "oob":
